@@ -444,6 +444,15 @@ Proof.
   eapply st_Q_trans; [|exact Q3]. eapply st_Q_trans; [exact Q1|exact Q2].
 Qed.
 
+Lemma mr_skip_trailer_Q n r : mr_inv r -> st_Q r (mr_skip_trailer n r).
+Proof.
+  intros HI. unfold mr_skip_trailer.
+  destruct (buffer_load (s_chunks (mr_s r)) (mr_b r) n) as [[chunks b] hit] eqn:E.
+  apply buffer_load_spec in E as (E1 & E2 & E3 & E4).
+  unfold st_Q. split; [exact HI|]. split; [reflexivity|].
+  rewrite mr_avail_with, len_dropN. unfold mr_avail. lia.
+Qed.
+
 Lemma execall_loop_spec fixed bs fuel : forall r,
   mr_inv r -> bs <= 281474976710656 -> mr_avail r + 1 <= N.of_nat fuel ->
   rspecP (fixed = false) 0 0 ((mr_avail r + 2) * W bs + 2 * mr_avail r)
@@ -468,7 +477,9 @@ Proof.
     destruct (read_value fixed bs r1) as [res al]. cbn [fst snd] in *.
     destruct res as [[raw r2]| |]; cbn [fst snd] in *.
     - destruct HR as [H1 [Q2 _]]. split; [lia|]. eapply st_Q_trans; eauto.
-    - destruct HR as [H1 H2]. split; [lia|exact Q1].
+    - destruct HR as [H1 H2]. split; [lia|].
+      destruct (e =? ESInvalidLength); [|exact Q1].
+      eapply st_Q_trans; [exact Q1|apply mr_skip_trailer_Q; exact I1].
     - destruct HR as [H1 H2]. split; [exact H1|lia]. }
   destruct (t0 =? 4); [apply rspecP_err; discriminate|].
   eapply rspecP_weaken; [apply (IH r1 I1 Hbs) | lia | lia | lia |]; [lia|].
